@@ -278,6 +278,13 @@ def dataReceived (envAt : Nat → Env) (p : Proto) (data : Bytes) : Proto :=
     let sp := splitCRLF (p.buffer ++ data)
     processLines envAt { p with buffer := sp.2 } sp.1
 
+/-- One complete server line arriving in one read (line + delimiter) at a connection whose line
+buffer is empty: `dataReceived envAt p (l ++ CRLF)` for a line without delimiter inside
+(`lineReceived_eq_dataReceived`). -/
+def lineReceived (envAt : Nat → Env) (p : Proto) (l : Bytes) : Proto :=
+  if p.authenticated then { p with binary := p.binary ++ (l ++ CRLF) }
+  else processLines envAt p [l]
+
 /-- `connectionMade` followed by `beginAuthentication`.  With an empty preference list
 `authTryNextMethod` raises out of `connectionMade`; recorded as a closed connection. -/
 def connectionMade (pref : List Bytes) (unix : Bool) (env : Env) : Proto :=
